@@ -540,7 +540,7 @@ def _is_target_object(
             else is_target and not dynamic_object.semantic_label.contains_any(ignore_attributes)
         )
 
-    if is_target and confidence_threshold_list is not None:
+    if is_target and confidence_threshold_list is not None and not is_gt:
         confidence_threshold = (
             0.0 if use_unknown_threshold else label_threshold.get_label_threshold(confidence_threshold_list)
         )
